@@ -65,6 +65,9 @@ Spec == Init /\ [][Next]_vars
 Winner == IF dash # "none" THEN 4
           ELSE IF "yaml" \in files THEN 1 ELSE IF "json" \in files THEN 2
           ELSE IF "pyproject" \in files THEN 3 ELSE 0
+\* the top-level `ignore` list is taken from the same file (no --config: yaml, else json, else pyproject)
+IgnoreWinner == IF "yaml" \in files THEN 1 ELSE IF "json" \in files THEN 2 ELSE IF "pyproject" \in files THEN 3 ELSE 0
+IgnoreFollowsWinner == (done /\ dash = "none") => IgnoreWinner = Winner
 CliId == IF cliDefault THEN 0 ELSE 5
 EffectiveA == IF cli THEN CliId
               ELSE IF Winner = 0 THEN 0
